@@ -76,6 +76,13 @@ func C07_IssueOnlyWhenAsked() {
 	o.totp, o.sms = false, false
 	f := newFlow(o)
 	v := symbolicValues()
+	// the application's login body may not know about "remember me" at all (UserValuer only):
+	// then nobody asked
+	loginOnly := verif.Choice("login-values", 2) == 1
+	f.w.Body.LoginOnly = loginOnly
+	if loginOnly {
+		v.Remember = false
+	}
 	nTokens := len(f.w.Store.Tokens)
 	_, panicked, _ := f.serve("POST /login", v, nil)
 	if panicked || len(f.w.ErrH.Errs) > 0 {
